@@ -3,7 +3,7 @@
     file path when it is a proper prefix of it (an implied directory). *)
 From stdpp Require Import gmap list.
 From Coq Require Import NArith ZArith.
-From VFS Require Import Core.Types Core.Calls Base.MemFS Base.Embedded Proofs.EmbProofs Proofs.MoreMem.
+From VFS Require Import Core.Types Core.Calls Base.MemFS Base.Embedded Proofs.EmbProofs Proofs.EmbMore Proofs.MoreMem.
 
 Notation files_t := (list (list (list N) * list N)).
 
@@ -56,6 +56,39 @@ Proof.
   rewrite !orb_true_iff, !bool_decide_eq_true, C18_files, C18_directories. tauto.
 Qed.
 
+(** the C05 story on the embedded view: every listing names each child once; a name is listed in
+    [d] iff [d ++ [n]] exists; a path can be read iff its metadata says file; and - for folders in
+    which no file lies below another file, which is every folder on disk - listed iff its metadata
+    says directory *)
+Theorem C18_listed_once : forall (files : files_t) d l,
+  emb_step (CReadDir d) (emb_new files) = Ok l -> NoDup l.
+Proof. exact emb_read_dir_nodup. Qed.
+Theorem C18_exists_iff_listed : forall (files : files_t) d n,
+  emb_step (CExists (d ++ [n])) (emb_new files) = Ok true <->
+  n ∈ default [] (e_dirs (emb_new files) !! d).
+Proof. exact emb_exists_iff_listed. Qed.
+Theorem C18_file_iff_readable : forall (files : files_t) p,
+  (exists b, emb_step (COpenFile p) (emb_new files) = Ok b) <->
+  (exists m, emb_step (CMetadata p) (emb_new files) = Ok m /\ m_type m = File).
+Proof. exact emb_file_iff_readable. Qed.
+Theorem C18_dir_iff_listable : forall (files : files_t) p,
+  prefix_free files -> (forall f, f ∈ map fst files -> f <> []) ->
+  (exists l, emb_step (CReadDir p) (emb_new files) = Ok l) <->
+  (exists m, emb_step (CMetadata p) (emb_new files) = Ok m /\ m_type m = Dir).
+Proof. exact emb_dir_iff_listable. Qed.
+(** the premises are met by the fixture's shape, and the statement is false without them: with a
+    file below a file the model lists a path whose metadata says file *)
+Example C18_prefix_free_example :
+  prefix_free [([[97%N]; [98%N]], [1%N]); ([[101%N]], [])] /\
+  let fs := emb_new [([[97%N]], [1%N]); ([[97%N]; [98%N]], [])] in
+  emb_step (CReadDir [[97%N]]) fs = Ok [[98%N]] /\ emb_step (CMetadata [[97%N]]) fs = Ok (mkMeta File 1 (Some TAuto) (Some TAuto) None).
+Proof.
+  split; [|vm_compute; split; reflexivity].
+  intros f g Hf Hg (n & r & E). cbn in Hf, Hg.
+  repeat (apply elem_of_cons in Hf as [->|Hf]); [| |now apply elem_of_nil in Hf];
+  repeat (apply elem_of_cons in Hg as [->|Hg]); try (now apply elem_of_nil in Hg); discriminate.
+Qed.
+
 (** every mutating call is refused as not-supported; the filesystem has no mutable state at all
     ([emb_step] returns no new state) *)
 Theorem C18_readonly : forall (s : embfs) c, mutating c = true -> emb_step c s = fail ENotSupported.
@@ -80,6 +113,11 @@ Print Assumptions C18_files.
 Print Assumptions C18_bytes.
 Print Assumptions C18_length.
 Print Assumptions C18_exists.
+Print Assumptions C18_listed_once.
+Print Assumptions C18_exists_iff_listed.
+Print Assumptions C18_file_iff_readable.
+Print Assumptions C18_dir_iff_listable.
+Print Assumptions C18_prefix_free_example.
 Print Assumptions C18_readonly.
 Print Assumptions C18_empty_root.
 Print Assumptions C18_example.
